@@ -1005,7 +1005,7 @@ func TestPropGraphCatalogue(t *testing.T) {
 
 func TestPropSources(t *testing.T) {
 	defer worker.Recycle()
-	vk.Rapid(t, subCase, vk.N(900, 30000), genSource)
+	vk.Rapid(t, subCase, vk.N(900, 12000), genSource)
 }
 
 // ---------------------------------------------------------------- generators: calls
@@ -1077,7 +1077,7 @@ func TestPropCalls(t *testing.T) {
 	if err := loadCallees(); err != nil {
 		t.Fatalf("cannot list callees: %v", err)
 	}
-	vk.Rapid(t, subCase, vk.N(2500, 100000), genCall)
+	vk.Rapid(t, subCase, vk.N(2500, 40000), genCall)
 }
 
 // Every callee with no argument and with each single pool value (exhaustive over callee x pool for arity <= 1).
@@ -1129,8 +1129,8 @@ func TestPropCallsArity2(t *testing.T) {
 					// quick: a seeded 1/300 slice of the pairs; for the operator callees every pair of the core pool
 					// (boundary scalars and one value of each container kind) and 1/64 of the other pairs
 					if vk.Thorough() {
-						// thorough: every pair for the operator callees, a seeded third of the pairs for the ~300 built-ins and methods
-						if !strings.HasPrefix(c, "op:") && (i/2+vk.Seed()*7)%3 != 0 {
+						// thorough: every pair for the operator callees, a seeded sixth of the pairs for the ~300 built-ins and methods
+						if !strings.HasPrefix(c, "op:") && (i/2+vk.Seed()*7)%6 != 0 {
 							continue
 						}
 					} else {
